@@ -12,7 +12,7 @@ from sympy.core.containers import Tuple
 from sympy import Function
 from sympy import Integer, Float
 from sympy.core.singleton import Singleton
-from sympy.core import Add, Mul
+from sympy.core import Add, Mul, Pow
 from sympy.core.singleton import S
 
 from sympde.core.basic import _coeffs_registery
@@ -20,6 +20,24 @@ from sympde.core import LinearOperator
 from sympde.core.basic import CalculusFunction
 
 from .form import DifferentialForm
+
+
+#==============================================================================
+def _is_coeff(a):
+    """
+    True if a is a constant coefficient: a member of the coefficients registery,
+    or a power whose base and exponent both are (sympy stores c*c as the Pow c**2).
+    Same notion as sympde.calculus.core.is_constant.
+    """
+    if isinstance(a, _coeffs_registery):
+        return True
+
+    if (isinstance(a, Pow) and
+        isinstance(a.base, _coeffs_registery) and
+        isinstance(a.exp , _coeffs_registery)):
+        return True
+
+    return False
 
 
 #==============================================================================
@@ -69,7 +87,7 @@ class ExteriorDerivative(LinearOperator):
         if isinstance(expr, ExteriorDerivative):
             return 0
 
-        if isinstance(expr, _coeffs_registery):
+        if _is_coeff(expr):
             return 0
 
         if isinstance(expr, DifferentialForm):
@@ -82,7 +100,7 @@ class ExteriorDerivative(LinearOperator):
             return Add(*args)
 
         elif isinstance(expr, Mul):
-            coeffs  = [a for a in expr.args if isinstance(a, _coeffs_registery)]
+            coeffs  = [a for a in expr.args if _is_coeff(a)]
             vectors = [a for a in expr.args if not(a in coeffs)]
 
             a = S.One
@@ -156,7 +174,7 @@ class ExteriorProduct(LinearOperator):
         #     return is done at the end
         alpha = S.One
         if isinstance(left, Mul):
-            coeffs  = [a for a in left.args if isinstance(a, _coeffs_registery)]
+            coeffs  = [a for a in left.args if _is_coeff(a)]
             vectors = [a for a in left.args if not(a in coeffs)]
 
             a = S.One
@@ -171,7 +189,7 @@ class ExteriorProduct(LinearOperator):
             left   = b
 
         if isinstance(right, Mul):
-            coeffs  = [a for a in right.args if isinstance(a, _coeffs_registery)]
+            coeffs  = [a for a in right.args if _is_coeff(a)]
             vectors = [a for a in right.args if not(a in coeffs)]
 
             a = S.One
@@ -407,7 +425,7 @@ class AdjointExteriorDerivative(LinearOperator):
         if isinstance(expr, AdjointExteriorDerivative):
             return 0
 
-        if isinstance(expr, _coeffs_registery):
+        if _is_coeff(expr):
             return 0
 
         if isinstance(expr, DifferentialForm):
@@ -420,7 +438,7 @@ class AdjointExteriorDerivative(LinearOperator):
             return Add(*args)
 
         elif isinstance(expr, Mul):
-            coeffs  = [a for a in expr.args if isinstance(a, _coeffs_registery)]
+            coeffs  = [a for a in expr.args if _is_coeff(a)]
             vectors = [a for a in expr.args if not(a in coeffs)]
 
             a = S.One
@@ -560,7 +578,7 @@ class Hodge(LinearOperator):
                 c = (-1)**(k*(n-k))
                 return c*arg
 
-        if isinstance(expr, _coeffs_registery):
+        if _is_coeff(expr):
             return 0
 
         elif isinstance(expr, Add):
@@ -570,7 +588,7 @@ class Hodge(LinearOperator):
 
         # TODO improve
         elif isinstance(expr, Mul):
-            coeffs  = [a for a in expr.args if isinstance(a, _coeffs_registery)]
+            coeffs  = [a for a in expr.args if _is_coeff(a)]
             vectors = [a for a in expr.args if not(a in coeffs)]
 
             a = S.One
